@@ -36,7 +36,8 @@ RECV_BUFFER_WRITERS = {
     READER + '.from_recv_buffer': 'takes the buffered bytes into the reader',
     READER + '.return_all': 'hands the bytes after EOD back',
 }
-RAW_RECV_CALLERS = {IOC + '.buffered_recv', READER + '.recv_piece'}
+RAW_RECV_CALLERS = {IOC + '.buffered_recv', READER + '.recv_piece',
+                    READER + '.recv'}
 # the reader is driven through recv() only; its steps are internal
 READER_INTERNALS = {'recv_piece', 'return_all', 'from_recv_buffer',
                     'add_lines', 'handle_finished_line'}
@@ -466,7 +467,11 @@ def g2(e: Engine, rep: Report, rule: str,
 def g3(e: Engine, rep: Report, rule: str):
     # recv: order of the three phases
     ctx = e.method_ctx(READER, 'recv')
-    g = e.build(ctx, raises=lambda b, n, r: set())
+    # (with the steps the socket read may have been moved into)
+    g = e.build(ctx, raises=lambda b, n, r: set(),
+                inline=e.inline_same_self(deny=[
+                    'from_recv_buffer', 'return_all', 'add_lines']),
+                max_depth=3)
     where = ctx.func.qname
     rep.functions.add(where)
 
@@ -477,8 +482,9 @@ def g3(e: Engine, rep: Report, rule: str):
                 return [nm]
         return []
     before = dataflow.must_events_before(g, ev)
-    rets = [n for n in g.of_kind('stmt') if isinstance(n.ast, ast.Return)]
-    pieces = [n for n in g.calls() if e.call_name(n) == 'recv_piece']
+    rets = [n for n in g.of_kind('stmt') if isinstance(n.ast, ast.Return)
+            and n.frame is g.entry.frame]
+    pieces = [n for n in g.calls() if e.call_name(n) == 'raw_recv']
     rep.evaluations += 2
     rep.check(bool(pieces) and all('from_recv_buffer' in (before.get(
         n.id) or ()) for n in pieces), rule, where,
